@@ -26,6 +26,13 @@ type FuncResult struct {
 	Pos       token.Position
 	Selected  []*Oblig
 	Err       string
+	ParamNames []string
+	ParamVals  []SVal
+	ResultVals []SVal
+	PkgPath    string
+	RecvPtr    bool
+	HasRecv    bool
+	FnName     string
 }
 
 func (e *Engine) genVC(fn *ssa.Function, con *Contract, prop string) (res *FuncResult) {
@@ -48,6 +55,19 @@ func (e *Engine) genVC(fn *ssa.Function, con *Contract, prop string) (res *FuncR
 		}
 	}()
 	vc.run()
+	for _, p := range fn.Params {
+		res.ParamNames = append(res.ParamNames, p.Name())
+		res.ParamVals = append(res.ParamVals, vc.vals[p])
+	}
+	res.ResultVals = vc.mergedResults
+	if fn.Pkg != nil {
+		res.PkgPath = fn.Pkg.Pkg.Path()
+	}
+	res.FnName = fn.Name()
+	if r := fn.Signature.Recv(); r != nil {
+		res.HasRecv = true
+		_, res.RecvPtr = r.Type().(*types.Pointer)
+	}
 	res.Obligs = vc.obligs
 	res.Script = vc.b.String()
 	res.Notes = vc.notes
